@@ -1033,27 +1033,28 @@ int yr_object_set_string(
 
   assert(string_obj->type == OBJECT_TYPE_STRING);
 
-  if (string_obj->value.ss != NULL)
-    yr_free(string_obj->value.ss);
+  // The new value is allocated before the old one is released: if the
+  // allocation fails the object keeps the value it had.
+  SIZED_STRING* new_value = NULL;
 
   if (value != NULL)
   {
-    string_obj->value.ss = (SIZED_STRING*) yr_malloc(
-        len + sizeof(SIZED_STRING));
+    new_value = (SIZED_STRING*) yr_malloc(len + sizeof(SIZED_STRING));
 
-    if (string_obj->value.ss == NULL)
+    if (new_value == NULL)
       return ERROR_INSUFFICIENT_MEMORY;
 
-    string_obj->value.ss->length = (uint32_t) len;
-    string_obj->value.ss->flags = 0;
+    new_value->length = (uint32_t) len;
+    new_value->flags = 0;
 
-    memcpy(string_obj->value.ss->c_string, value, len);
-    string_obj->value.ss->c_string[len] = '\0';
+    memcpy(new_value->c_string, value, len);
+    new_value->c_string[len] = '\0';
   }
-  else
-  {
-    string_obj->value.ss = NULL;
-  }
+
+  if (string_obj->value.ss != NULL)
+    yr_free(string_obj->value.ss);
+
+  string_obj->value.ss = new_value;
 
   return ERROR_SUCCESS;
 }
